@@ -60,11 +60,16 @@ func specSliceCount(byteCount, sliceByteCount int) int {
 
 // ---- main_packet.go, string.go, *_packet.go ---------------------------------
 
+// C17/C05: the order of the recovery set is the unsigned order of the file IDs read as 128-bit
+// little-endian integers (byte 15 most significant): a strict total order, so sorting distinct
+// IDs has exactly one result whatever the order the input files were listed in.
 //@ func fileIDLess
 //@   props C13 C19 C05 C17
 //@   pure
+//@   ensures result == ult(id1, id2)
 //@   loop 0
 //@     invariant i <= 15
+//@     invariant forall(q, i + 1, 16, id1[q] == id2[q])
 
 //@ func checkFileIDSetsSorted
 //@   props C13 C19
@@ -220,9 +225,16 @@ func specSliceCount(byteCount, sliceByteCount int) int {
 //@   modifies nothing
 //@   ensures result == pathJoin(pathDir(d.indexPath), info.filename)
 
+// C03 clause "no repair needed only if every protected file is intact", as an obligation on the
+// counts Verify returns: if no data slice is counted unusable then no file is flagged missing,
+// hash-mismatched or of wrong length. It does NOT hold (finding D7, recorded in
+// /verif/known_findings.json): slices found anywhere count as usable, so files that swapped
+// names, gained or lost bytes leave UnusableDataShardCount == 0. check-ensures: proved or
+// reported at ShardCounts' own returns, never assumed by callers.
 //@ func (*Decoder).ShardCounts
 //@   props C13 C19 C03
 //@   modifies nothing
+//@   check-ensures @C03 implies(result.UnusableDataShardCount == 0, forall(q, 0, len(d.fileIntegrityInfos), !d.fileIntegrityInfos[q].missing && !d.fileIntegrityInfos[q].hashMismatch && !d.fileIntegrityInfos[q].hasWrongByteCount))
 
 //@ func sliceAndPadByteArray
 //@   props C13 C19 C16 C05
@@ -332,11 +344,20 @@ func specSliceCount(byteCount, sliceByteCount int) int {
 
 // ---- C18: every I/O failure (other than "file does not exist" on a read) surfaces as an error ----
 
+// C03/C01/C14: the per-file flags are truthful about the bytes that were read: `missing` exactly
+// when the read reported not-exist, otherwise hashMismatch and hasWrongByteCount are exactly
+// the comparisons of the whole-file MD5, the first-16-KiB MD5 and the length with the file's
+// description packet -- on every path (no shortcut may skip them).
 //@ func (*Decoder).fillFileIntegrityInfos
-//@   props C18 C15
+//@   props C18 C15 C03 C01 C14
 //@   skip-safety
 //@   assert-call fileIO.ReadFile : arg0 == pathJoin(pathDir(d.indexPath), info.filename)
 //@   ensures implies(gIOFailed && !old(gIOFailed), result3 != nil)
+//@   ensures implies(isNotExist(err), result3 == nil && fileIntegrityInfos[i].missing)
+//@   ensures implies(!isNotExist(err) && err != nil, result3 != nil)
+//@   ensures implies(err == nil, result3 == nil && result0 == len(data))
+//@   ensures implies(err == nil, fileIntegrityInfos[i].hashMismatch == (md5(bytes(data[:min(len(data), 16384)])) != info.sixteenKHash || md5(bytes(data)) != info.hash))
+//@   ensures implies(err == nil, fileIntegrityInfos[i].hasWrongByteCount == (len(data) != info.byteCount))
 
 //@ func (*Decoder).LoadFileData
 //@   props C18
@@ -371,28 +392,105 @@ func specSliceCount(byteCount, sliceByteCount int) int {
 //@   loop 0
 //@     invariant gIOFailed == old(gIOFailed)
 
+// C05 (recovery files): the volumes partition the block numbers: the volume that starts at block i
+// is given a packet map that was created empty for this volume and receives at most
+// volumeCount entries (one per loop iteration j, keyed i+j), i+volumeCount <= n, and the next
+// volume starts at i+volumeCount. NOT proved (solver limits on map-content invariants): that
+// entry i+j holds parity shard i+j.
 //@ func (*Encoder).Write
-//@   props C18 C02
+//@   props C18 C02 C05
 //@   skip-safety
+//@   requires e.parityShardCount <= 65536 && len(e.parityShards) >= e.parityShardCount
 //@   ensures implies(gIOFailed && !old(gIOFailed), result != nil)
+//@   assert-call writeFile #1 : volumeCount >= 1 && i + volumeCount <= e.parityShardCount && len(arg0.recoveryPackets) <= volumeCount
 //@   loop 0
+//@     modifies nothing
 //@     invariant gIOFailed == old(gIOFailed)
 //@   loop 1
-//@     invariant gIOFailed == old(gIOFailed)
+//@     modifies nothing
+//@     invariant gIOFailed == old(gIOFailed) && i >= 0 && volumeCount >= 1 && volumeCount <= 131072 && e.parityShardCount <= 65536
 //@   loop 2
-//@     invariant gIOFailed == old(gIOFailed)
+//@     modifies nothing
+//@     invariant gIOFailed == old(gIOFailed) && j >= 0 && j <= volumeCount && i + volumeCount <= e.parityShardCount
+//@     invariant fresh(recoveryFile.recoveryPackets) && e.parityShardCount <= 65536 && len(e.parityShards) >= e.parityShardCount
+//@     invariant len(recoveryFile.recoveryPackets) <= j
 
+// C17/C15 (create side): the name stored for input i is exactly Rel(basePath, filePaths[i]) (the
+// lexical relative path computed by the standard library from two absolute paths), never
+// starts with '.', and basePath and every input path are absolute; the slice size is a
+// non-zero multiple of 4.
 //@ func newEncoder
-//@   props C18
+//@   props C18 C17 C15 C05
 //@   skip-safety
 //@   ensures gIOFailed == old(gIOFailed)
+//@   ensures implies(result1 == nil, fpIsAbs(basePath) && len(result0.relFilePaths) == len(filePaths) && result0.sliceByteCount == sliceByteCount && sliceByteCount != 0 && sliceByteCount % 4 == 0 && result0.basePath == basePath)
+//@   ensures implies(result1 == nil, forall(q, 0, len(filePaths), fpIsAbs(filePaths[q]) && result0.relFilePaths[q] == pathRel(basePath, filePaths[q]) && result0.relFilePaths[q][0] != 46))
 //@   loop 0
-//@     invariant gIOFailed == old(gIOFailed)
+//@     modifies nothing
+//@     invariant gIOFailed == old(gIOFailed) && fresh(relFilePaths) && len(relFilePaths) == len(filePaths)
+//@     invariant forall(q, 0, rangeindex + 1, fpIsAbs(filePaths[q]) && relFilePaths[q] == pathRel(basePath, filePaths[q]) && relFilePaths[q][0] != 46)
 
+// C17: what reaches the encoder is a function of the arguments only: base path = Dir(Abs(parPath)),
+// input i = Abs(filePaths[i]) (the library's canonical absolute form, so relative and absolute
+// spellings of one path coincide), slice size / recovery-block count = the options or their
+// documented defaults; the goroutine count goes nowhere but to the coder (C12).
 //@ func create
-//@   props C18
+//@   props C18 C17
 //@   skip-safety
 //@   requires fileIO != nil
 //@   ensures implies(gIOFailed && !old(gIOFailed), result != nil)
+//@   assert-call newEncoder : arg2 == pathDir(pathAbs(parPath)) && len(arg3) == len(filePaths) && forall(q, 0, len(filePaths), arg3[q] == pathAbs(filePaths[q]))
+//@   assert-call newEncoder : arg4 == ite(options.SliceByteCount <= 0, 2000, options.SliceByteCount) && arg5 == ite(options.NumParityShards <= 0, 3, options.NumParityShards)
 //@   loop 0
-//@     invariant gIOFailed == old(gIOFailed)
+//@     modifies nothing
+//@     invariant gIOFailed == old(gIOFailed) && fresh(absFilePaths) && len(absFilePaths) == len(filePaths)
+//@     invariant forall(q, 0, rangeindex + 1, absFilePaths[q] == pathAbs(filePaths[q]))
+
+// ---- C03: the integrity predicates and the count observers -----------------------------
+
+// A slice counts as found at a location only with non-empty data recorded for exactly that location.
+//@ func (shardIntegrityInfo).ok
+//@   props C03 C01 C14
+//@   modifies nothing
+//@   ensures implies(result, len(info.data) != 0)
+
+// A file is OK only if it is present, its whole-file hashes and its length match (the flags
+// established by fillFileIntegrityInfos) and every slice sits at its expected offset.
+//@ func (fileIntegrityInfo).ok
+//@   props C03 C01 C14
+//@   modifies nothing
+//@   ensures implies(result, !info.missing && !info.hashMismatch && !info.hasWrongByteCount)
+
+//@ func (ShardCounts).RepairNeeded
+//@   props C03 C20
+//@   pure
+//@   ensures result == (fc.UnusableDataShardCount > 0)
+
+//@ func (ShardCounts).RepairPossible
+//@   props C03 C20
+//@   pure
+//@   ensures result == (fc.UsableParityShardCount >= fc.UnusableDataShardCount)
+
+// The slice index: a candidate window is accepted only if BOTH its CRC32 and the MD5 of its
+// bytes are those of a protected slice (C03: never count a slice whose content is absent).
+//@ func (checksumShardLocationMap).get
+//@   props C03 C16
+//@   modifies nothing
+//@   ensures implies(len(result) != 0, result == m[crc32][md5(bytes(data))])
+
+// put records the location under (crc32, md5): afterwards it is found there, whatever was
+// recorded before (identical slices keep all their locations: nothing is dropped). Absence of
+// nil inner maps is a data-structure invariant that is not stated, hence skip-safety.
+//@ func (checksumShardLocationMap).put
+//@   props C03 C16
+//@   skip-safety
+//@   ensures m[crc32][md5Hash][location]
+
+// writeFile serialises a packet set. ASSUMED (body not verified): it leaves all memory reachable
+// by its caller unchanged. (Known wrinkle: it appends nonRecoverySet to mainPacket.recoverySet,
+// which writes into spare capacity of that slice if there is any; the encoder never sets a
+// non-recovery set.) Used only so that Encoder.Write's own state survives the call.
+//@ func writeFile
+//@   props C05
+//@   assume-contract serialiser: frame assumed, body not verified
+//@   modifies nothing
